@@ -1,4 +1,8 @@
 import Model.Spec
+import Proofs.Map
+import Proofs.Chain
+import Proofs.Replay
+import Props.C04
 
 /-!
 # C03 — the ledger state at a block is a function of that block's chain alone
@@ -14,13 +18,43 @@ replaying the block's chain from genesis — whatever else is stored, whatever t
 theorem utxo_is_replay (bs : List Block) (s : CoinState) (hwf : WFArrivals C bs)
     (hf : foldBlocks C .empty bs = .ok s) (b : Block) (hb : b ∈ bs) :
     ∃ u, s.utxoAt.get? (b.id C) = some u ∧ replayUtxo C (chainOf C bs bs.length b) [] = .ok u := by
-  sorry
+  induction hwf generalizing s b with
+  | genesis g h1 h2 h3 =>
+    obtain ⟨u₀, u, hu0, -, hap, hut⟩ := add_ok_utxo C (foldBlocks_single_ok C hf)
+    rw [List.mem_singleton.1 hb, hut, Map.get?_set_self]
+    refine ⟨u, rfl, ?_⟩
+    rw [hu0 h1] at hap
+    simp only [List.length_singleton, chainOf, h1, ↓reduceIte, replayUtxo, hap]
+  | snoc bs x p hwf hp hprev hht hnz hfresh ih =>
+    obtain ⟨s₀, hf₀, ha⟩ := foldBlocks_snoc_ok C hf
+    have F := hwf.facts C
+    have hz : x.prev ≠ zeros 32 := by rw [hprev]; exact F.nz p hp
+    obtain ⟨u₀, u, -, hu0, hap, hut⟩ := add_ok_utxo C ha
+    rw [hut, Map.get?_set]
+    rcases List.mem_append.1 hb with hb | hb
+    · have hne : x.id C ≠ b.id C := fun e => hfresh b hb e.symm
+      simp only [hne, ↓reduceIte]
+      rw [chainOf_snoc_old C F x hb]
+      exact ih s₀ hf₀ b hb
+    · rw [List.mem_singleton.1 hb]
+      simp only [↓reduceIte]
+      refine ⟨u, rfl, ?_⟩
+      obtain ⟨up, hup, hrp⟩ := ih s₀ hf₀ p hp
+      have h0 := hu0 hz
+      rw [hprev, hup] at h0
+      simp only [Option.some.injEq] at h0
+      subst h0
+      rw [chainOf_snoc_new C F hp hprev, replayUtxo_snoc, hrp]
+      exact hap
 
 /-- `chainOf` does not depend on the order of the history, only on its set of blocks -/
 theorem chainOf_perm (bs bs' : List Block) (hwf : WFArrivals C bs) (hwf' : WFArrivals C bs')
     (hp : ∀ x, x ∈ bs ↔ x ∈ bs') (hl : bs.length = bs'.length) (b : Block) (hb : b ∈ bs) :
     chainOf C bs bs.length b = chainOf C bs' bs'.length b := by
-  sorry
+  have _ := hwf
+  have _ := hb
+  rw [← hl]
+  exact chainOf_congr C (findBlock_perm C (hwf'.facts C) hp) bs.length b
 
 /-- two arrival orders of the same block set give the same unspent set and the same by-height
 index at every block -/
@@ -30,7 +64,11 @@ theorem arrival_order_irrelevant (bs bs' : List Block) (s s' : CoinState)
     (hf : foldBlocks C .empty bs = .ok s) (hf' : foldBlocks C .empty bs' = .ok s')
     (b : Block) (hb : b ∈ bs) :
     s.utxoAt.get? (b.id C) = s'.utxoAt.get? (b.id C) := by
-  sorry
+  obtain ⟨u, hu, hr⟩ := utxo_is_replay C bs s hwf hf b hb
+  obtain ⟨u', hu', hr'⟩ := utxo_is_replay C bs' s' hwf' hf' b ((hp b).1 hb)
+  rw [chainOf_perm C bs bs' hwf hwf' hp hl b hb, hr'] at hr
+  cases hr
+  rw [hu, hu']
 
 /-- the per-key balances the node reports at a block are computed by replaying that block's
 chain (`PublicKeyBalances` walks `previous_block_hash` links; the cache is memoisation) -/
@@ -38,7 +76,12 @@ theorem balances_are_replay (bs : List Block) (s : CoinState) (hwf : WFArrivals 
     (hf : foldBlocks C .empty bs = .ok s) (b : Block) (hb : b ∈ bs) :
     balancesAt C s (b.id C) =
       (replay C (chainOf C bs bs.length b) [] []).map (·.2) := by
-  sorry
+  unfold balancesAt
+  rw [chainAtHash_blocks C bs s hwf hf hb]
+  simp only [bind, Except.bind]
+  cases replay C (chainOf C bs bs.length b) [] [] with
+  | error e => rfl
+  | ok r => rfl
 
 /-- adding a block never changes what an earlier snapshot holds for the blocks it knew:
 the new state agrees with the old one on every previously stored id -/
@@ -46,7 +89,80 @@ theorem earlier_entries_unchanged (cs cs' : CoinState) (b : Block)
     (ha : addBlockNoValidation C cs b = .ok cs') (id : Bytes) (hid : id ≠ b.id C) :
     cs'.utxoAt.get? id = cs.utxoAt.get? id ∧ cs'.blocks.get? id = cs.blocks.get? id ∧
     (b.prev ≠ zeros 32 → cs'.byHeightAt.get? id = cs.byHeightAt.get? id) := by
-  sorry
+  obtain ⟨hb, -, -, hbh, -⟩ := add_ok_inv C ha
+  obtain ⟨u₀, u, -, -, -, hut⟩ := add_ok_utxo C ha
+  have hid' : b.id C ≠ id := fun e => hid e.symm
+  refine ⟨?_, ?_, ?_⟩
+  · rw [hut, Map.get?_set_other _ _ _ _ hid']
+  · rw [hb, Map.get?_set_other _ _ _ _ hid']
+  · intro hz
+    obtain ⟨bh, -, hbh⟩ := hbh hz
+    rw [hbh, Map.get?_set_other _ _ _ _ hid']
+
+/-! ## non-vacuity -/
+
+/-- the hypotheses of `utxo_is_replay` / `balances_are_replay` are satisfiable for every `Crypto`:
+a genesis block and a child (both with cached hashes, as blocks read from the wire or the block
+store carry) arrive successfully, and the child is a block of that history -/
+example : ∃ (bs : List Block) (s : CoinState) (b : Block),
+    WFArrivals C bs ∧ foldBlocks C .empty bs = .ok s ∧ b ∈ bs ∧ bs.length = 2 ∧
+    b.prev ≠ zeros 32 := by
+  let cb : CTx := ⟨⟨[], [⟨10, [5]⟩]⟩, some [7]⟩
+  let g : Block := ⟨⟨⟨0, zeros 32, [], 0, [], 0⟩, ⟨[], [], []⟩⟩, [cb], some [1]⟩
+  let b₁ : Block := ⟨⟨⟨1, [1], [], 0, [], 0⟩, ⟨[], [], []⟩⟩, [cb], some [2]⟩
+  have hg : WFArrivals C [g] := .genesis g rfl rfl
+    (by show ([1] : Bytes) ≠ zeros 32; decide)
+  have hwf : WFArrivals C ([g] ++ [b₁]) :=
+    .snoc [g] b₁ g hg (List.mem_singleton.2 rfl) rfl rfl
+      (by show ([2] : Bytes) ≠ zeros 32; decide)
+      (by intro c hc; rw [List.mem_singleton.1 hc]; show ([1] : Bytes) ≠ [2]; decide)
+  refine ⟨[g] ++ [b₁], _, b₁, hwf, rfl, by simp, rfl, ?_⟩
+  show ([1] : Bytes) ≠ zeros 32
+  decide
+
+/-- the hypotheses of `arrival_order_irrelevant` / `chainOf_perm` are satisfiable with two
+genuinely different arrival orders: a genesis block and two children of it, arriving in either
+order -/
+example : ∃ (bs bs' : List Block) (s s' : CoinState),
+    WFArrivals C bs ∧ WFArrivals C bs' ∧ (∀ x, x ∈ bs ↔ x ∈ bs') ∧ bs.length = bs'.length ∧
+    foldBlocks C .empty bs = .ok s ∧ foldBlocks C .empty bs' = .ok s' ∧ bs ≠ bs' := by
+  let cb : CTx := ⟨⟨[], [⟨10, [5]⟩]⟩, some [7]⟩
+  let g : Block := ⟨⟨⟨0, zeros 32, [], 0, [], 0⟩, ⟨[], [], []⟩⟩, [cb], some [1]⟩
+  let b₁ : Block := ⟨⟨⟨1, [1], [], 0, [], 0⟩, ⟨[], [], []⟩⟩, [cb], some [2]⟩
+  let b₂ : Block := ⟨⟨⟨1, [1], [], 0, [], 1⟩, ⟨[], [], []⟩⟩, [cb], some [3]⟩
+  have hg : WFArrivals C [g] := .genesis g rfl rfl
+    (by show ([1] : Bytes) ≠ zeros 32; decide)
+  have h1 : WFArrivals C ([g] ++ [b₁]) :=
+    .snoc [g] b₁ g hg (List.mem_singleton.2 rfl) rfl rfl
+      (by show ([2] : Bytes) ≠ zeros 32; decide)
+      (by intro c hc; rw [List.mem_singleton.1 hc]; show ([1] : Bytes) ≠ [2]; decide)
+  have h2 : WFArrivals C ([g] ++ [b₂]) :=
+    .snoc [g] b₂ g hg (List.mem_singleton.2 rfl) rfl rfl
+      (by show ([3] : Bytes) ≠ zeros 32; decide)
+      (by intro c hc; rw [List.mem_singleton.1 hc]; show ([1] : Bytes) ≠ [3]; decide)
+  have h12 : WFArrivals C (([g] ++ [b₁]) ++ [b₂]) :=
+    .snoc _ b₂ g h1 (by simp) rfl rfl
+      (by show ([3] : Bytes) ≠ zeros 32; decide)
+      (by
+        intro c hc
+        simp only [List.mem_append, List.mem_singleton] at hc
+        rcases hc with hc | hc <;> rw [hc]
+        · show ([1] : Bytes) ≠ [3]; decide
+        · show ([2] : Bytes) ≠ [3]; decide)
+  have h21 : WFArrivals C (([g] ++ [b₂]) ++ [b₁]) :=
+    .snoc _ b₁ g h2 (by simp) rfl rfl
+      (by show ([2] : Bytes) ≠ zeros 32; decide)
+      (by
+        intro c hc
+        simp only [List.mem_append, List.mem_singleton] at hc
+        rcases hc with hc | hc <;> rw [hc]
+        · show ([1] : Bytes) ≠ [2]; decide
+        · show ([3] : Bytes) ≠ [2]; decide)
+  refine ⟨_, _, _, _, h12, h21, ?_, rfl, rfl, rfl, ?_⟩
+  · intro x
+    simp only [List.mem_append, List.mem_singleton]
+    constructor <;> rintro ((h | h) | h) <;> simp [h]
+  · decide
 
 end C03
 end Model
